@@ -11,10 +11,11 @@ use super::trivia::{
     has_non_trivia_before_on_same_line_tokenwise, node_has_direct_comment_child,
     source_line_prefix_width,
 };
+use crate::config::SimpleLambdaSingleLine;
 use emmylua_parser::{
     LuaAssignStat, LuaAst, LuaAstNode, LuaCallArgList, LuaChunk, LuaComment, LuaDoStat, LuaExpr,
     LuaForRangeStat, LuaForStat, LuaFuncStat, LuaIfStat, LuaKind, LuaLocalFuncStat, LuaLocalStat,
-    LuaParamList, LuaRepeatStat, LuaReturnStat, LuaSyntaxId, LuaSyntaxKind, LuaSyntaxNode,
+    LuaParamList, LuaRepeatStat, LuaReturnStat, LuaStat, LuaSyntaxId, LuaSyntaxKind, LuaSyntaxNode,
     LuaSyntaxToken, LuaTableExpr, LuaTokenKind, LuaWhileStat,
 };
 
@@ -317,19 +318,21 @@ fn analyze_call_arg_list_layout(ctx: &FormatContext, args: &LuaCallArgList, plan
     let syntax_id = LuaSyntaxId::from_node(args.syntax());
     let arg_exprs: Vec<_> = args.get_args().collect();
     let has_explicit_multiline_arg = arg_exprs.iter().any(|arg| {
-        is_multiline_block_like_expr(arg)
+        is_multiline_block_like_arg(ctx, arg)
             || matches!(arg, LuaExpr::TableExpr(table) if table.syntax().text().contains_char('\n'))
     });
     let first_line_prefix_width = arg_exprs
         .first()
         .map(|arg| source_line_prefix_width(arg.syntax()))
         .unwrap_or(0);
-    let first_arg_multiline_block = arg_exprs.first().is_some_and(is_multiline_block_like_expr);
+    let first_arg_multiline_block = arg_exprs
+        .first()
+        .is_some_and(|arg| is_multiline_block_like_arg(ctx, arg));
     let first_arg_multiline_table = matches!(arg_exprs.first(), Some(LuaExpr::TableExpr(table)) if table.syntax().text().contains_char('\n'));
     let mut single_inline_block_arg_index = None;
     let mut inline_block_count = 0usize;
     for (index, arg) in arg_exprs.iter().enumerate().skip(1) {
-        if is_multiline_block_like_expr(arg) {
+        if is_multiline_block_like_arg(ctx, arg) {
             inline_block_count += 1;
             if inline_block_count == 1 {
                 single_inline_block_arg_index = Some(index);
@@ -594,6 +597,36 @@ fn is_block_like_expr(expr: &LuaExpr) -> bool {
 
 fn is_multiline_block_like_expr(expr: &LuaExpr) -> bool {
     is_block_like_expr(expr) && expr.syntax().text().contains_char('\n')
+}
+
+/// A call argument that is laid out over several lines: it spans several lines in the source, or
+/// it is a function whose body cannot stay on its line. Only `function(...) return <expr> end`
+/// can be printed on one line; every other function is broken by the printer even when the source
+/// has it on one line, so the layout decided here must not depend on that accident of the source
+/// (formatting the output again has to see the same facts).
+fn is_multiline_block_like_arg(ctx: &FormatContext, expr: &LuaExpr) -> bool {
+    if is_multiline_block_like_expr(expr) {
+        return true;
+    }
+    let LuaExpr::ClosureExpr(closure) = expr else {
+        return false;
+    };
+    if ctx.config.output.simple_lambda_single_line == SimpleLambdaSingleLine::Never {
+        return true;
+    }
+    let Some(block) = closure.get_block() else {
+        return true;
+    };
+    if node_has_direct_comment_child(closure.syntax())
+        || node_has_direct_comment_child(block.syntax())
+    {
+        return true;
+    }
+    let mut stats = block.get_stats();
+    match (stats.next(), stats.next()) {
+        (Some(LuaStat::ReturnStat(ret)), None) => ret.get_expr_list().count() != 1,
+        _ => true,
+    }
 }
 
 fn should_attach_single_value_head(exprs: &[LuaExpr]) -> bool {
